@@ -394,24 +394,7 @@ func c11PointerTransparency(r *Run) {
 		r.Bad("R4", id.Name(), "pointer dereference before the struct test", w.Pos(id.Decl.Pos()), "fields of a pointer to a struct must be reachable: the pointer must be dereferenced before the value is required to be a struct")
 	}
 	// the field value itself: a pointer field is dereferenced (nil -> nil)
-	okField := false
-	inspectBody(id.Decl.Body, true, func(n ast.Node) bool {
-		ifs, ok := n.(*ast.IfStmt)
-		if !ok {
-			return true
-		}
-		if be, ok := unparen(ifs.Cond).(*ast.BinaryExpr); ok && be.Op == token.EQL {
-			if k, _ := constInt(info, be.Y); k == kPtr && ifs.Pos() > structPos {
-				okField = true
-			}
-		}
-		return true
-	})
-	if okField {
-		r.Ok("R4", id.Name(), "pointer field dereferenced (nil yields nil)", w.Pos(id.Decl.Pos()), "if f.Kind()==Ptr { if f.IsNil() { return nil, nil }; f = f.Elem() }")
-	} else {
-		r.Bad("R4", id.Name(), "pointer-typed field", w.Pos(id.Decl.Pos()), "a pointer field must be followed transparently")
-	}
+	c11FieldDerefSSA(r, "R4", id)
 	c11MethodLookupSSA(r, "R4")
 }
 
